@@ -48,7 +48,14 @@ func hasCelComment(m *openfgav1.AuthorizationModel) bool {
 }
 
 // parseAndCompare feeds one rendering to the parser and compares with the model that was written.
-func parseAndCompare(run *core.Run, txt string, modular bool, exp *openfgav1.AuthorizationModel, expExt map[string]*openfgav1.TypeDefinition, how string) bool {
+func parseAndCompare(run *core.Run, txt string, modular bool, exp *openfgav1.AuthorizationModel, expExt map[string]*openfgav1.TypeDefinition, how string) (ok bool) {
+	run.Guard(&core.Case{Kind: "layout", DSL: txt, Model: modelJSON(exp), Extra: map[string]string{"modular": fmt.Sprint(modular), "how": how}}, func() {
+		ok = parseAndCompare1(run, txt, modular, exp, expExt, how)
+	})
+	return ok
+}
+
+func parseAndCompare1(run *core.Run, txt string, modular bool, exp *openfgav1.AuthorizationModel, expExt map[string]*openfgav1.TypeDefinition, how string) bool {
 	c := &core.Case{Kind: "layout", DSL: txt, Model: modelJSON(exp), Extra: map[string]string{"modular": fmt.Sprint(modular), "how": how}}
 	if expExt != nil {
 		var ks []string
@@ -220,6 +227,10 @@ func runC03(run *core.Run) {
 		reps := 1 + r.Intn(3)
 		for k := 0; k < reps; k++ {
 			l := &gen.Layout{R: r, Wild: r.Intn(6) != 0, CRLF: r.Intn(4) == 0, Comments: r.Intn(2) == 0}
+			if i%8 == 3 && k == 0 && l.Wild {
+				l.Mixed = true // LF and CRLF line ends mixed in one file
+				run.Count("texts_with_mixed_line_ends", 1)
+			}
 			if i%64 == 7 && k == 0 {
 				l.Long = 66000 + r.Intn(9000) // a comment line longer than 64 KiB
 				run.Count("texts_with_a_line_over_64KiB", 1)
